@@ -149,7 +149,7 @@ def c05(prop, tier, seed):
     obs, infos = K.run_property(prop, tier, None)
     r["obs"].extend(obs); r["infos"].extend(infos)
     r["assumptions"] += ["clause 2 (published list vs wire names) is bounded over programs: " + G_ASSUMPTIONS[0], G_ASSUMPTIONS[4], G_ASSUMPTIONS[5]]
-    r["uncovered"] = ["the `const _` call site inside the wrapper's dispatch (its effect is a failed build)"]
+    r["uncovered"] = ["the `const _` call site inside the wrapper's dispatch is decided only on two must-not-compile fixtures (fx_overlap_a: contract vs interface with the collision found only if the lists are sorted; fx_overlap_b: two interfaces sharing a sudo name): bounded over programs"]
     r["fixtures"] = sorted(set(o.extra.get("fixture", "") for o in obs if o.extra.get("fixture")))
     return r
 
